@@ -365,6 +365,16 @@ pub fn check_eqv(c: &EqvCase, ctx: &mut Ctx) -> CheckResult {
     for i in 0..can.len() {
         for j in 0..i {
             let (a, b) = (can[i].verdict, can[j].verdict);
+            if a != Verdict::None && b != Verdict::None && a != b {
+                // known finding: a "Solved" verdict resting on a diverged iterate (the relative termination
+                // test is normalised by the iterate's own norm) while an equivalent formulation reports infeasibility
+                let scale = 1.0 + norm_inf(&dp.b) + norm_inf(&dp.q) + dp.a.iter().map(|r| norm_inf(r)).fold(0.0, f64::max);
+                let diverged = |k: &Canon| k.verdict == Verdict::Solved && norm_inf(&k.x).max(norm_inf(&k.z)) > 1e12 * scale;
+                if (diverged(&can[i]) || diverged(&can[j])) && known_finding_hit("C05:solved-at-diverged-iterate") {
+                    ctx.label("known-finding:solved-at-diverged-iterate");
+                    continue;
+                }
+            }
             ensure!(
                 a == Verdict::None || b == Verdict::None || a == b,
                 "contradictory verdicts for equivalent formulations: variant {i} says {:?} ({:?}), variant {j} says {:?} ({:?}); chains: {:?} / {:?}",
